@@ -1867,8 +1867,13 @@ func main() {
 
 		ok := "(* GENERATED by harness/tools/effects — do not edit. *)\n" +
 			"From HV Require Import Base.Prelude C17.Model Gen.Effects.\n\n" +
-			"(** every receiver-write effect extracted from the current source belongs to a recorded finding *)\n" +
-			"Example effects_read_only : forallb row_ok generated_table = true.\nProof. vm_compute. reflexivity. Qed.\n"
+			"(** no method of any mechanism type has a receiver-write effect in the table extracted from the current source *)\n" +
+			"Example effects_read_only : forallb row_ok generated_table = true.\nProof. vm_compute. reflexivity. Qed.\n\n" +
+			"(** the table has rows for at least ten mechanism types, each with an Execute and a WithConfig method *)\n" +
+			"Example table_covers_mechanisms :\n  List.length generated_table >= 10 /\\\n" +
+			"  forallb (fun r => match may_write r \"Execute\", may_write r \"WithConfig\" with\n" +
+			"                    | Some _, Some _ => true | _, _ => false end) generated_table = true.\n" +
+			"Proof. split; [vm_compute; lia|vm_compute; reflexivity]. Qed.\n"
 		if err := os.WriteFile(filepath.Join(*out, "EffectsOk.v"), []byte(ok), 0o644); err != nil {
 			fmt.Fprintln(os.Stderr, err)
 			os.Exit(2)
